@@ -8,5 +8,5 @@ CONSTANTS
   Sizes = {0, 1, 7, 33, 50, 99}
   PricesSet = {1, 3, 11}
   Adj = 10
-INVARIANTS InvBackedOnce InvBackedEach InvBracket
+INVARIANTS InvBackedOnce InvBackedEach InvBracket InvEmit
 CHECK_DEADLOCK FALSE
